@@ -27,7 +27,9 @@ RULE = (
     "identical baselines built one after the other (same mask; same shape/scales/number of unmasked pixels at other "
     "positions; same pattern at another origin), each checked against the oracle of its own mask, and the first "
     "re-checked after the others were used; 'util' = the autoarray.util.transformer functions called directly on irregular (non-lattice) "
-    "grids for every (n pixels, K baselines) in 1..4 x 1..4; 'inv' = every mask (>=2 unmasked pixels) of the stated "
+    "grids for every (n pixels, K baselines) in 1..4 x 1..4, each also with the baselines rounded to whole numbers and handed "
+    "over as int64 / int32 / float32 arrays (tables, visibilities_jit on every basis image, transformed_mapping_matrix_jit, "
+    "image_via_jit_from against the explicit DFT of the rounded baselines); 'inv' = every mask (>=2 unmasked pixels) of the stated "
     "frames x every ordered list of linear objects of the stated menu x preload on/off x (factory on a real "
     "Interferometer, InversionInterferometerMapping on a DatasetInterface). non-trivial = dft: >=2 unmasked pixels "
     "and >=1 masked pixel (slim order differs from native order); util: n>=2 and K>=2; inv: the list mixes object "
@@ -83,7 +85,8 @@ BOUNDS = {
              "cancelling lists: every 3x3 mask (>= 2 pixels) x 1 rotating list of the 4-list funcZ menu, every 2x3/3x2 mask x 1 list; "
              "units: every 3x3 mask x 2 exponents (one of -12,-9,-6,-3 and one of 3,6,9,12, rotating) x 1 rotating list of a "
              "5-list menu, every 2x3/3x2 mask x every second of the 8 exponents; own: all masks with <= 6 cells x 4 array forms x "
-             "preload on/off x 3 in-place edits (K = 3 integer-valued baselines); util: cancelling columns on all pixel pairs",
+             "preload on/off x 3 in-place edits (K = 3 integer-valued baselines); util: cancelling columns on all pixel pairs; "
+             "util: whole-number baselines as int64/int32/float32 for every n,K in 1..4",
     "thorough": "dft: all masks with <= 10 cells x 6 geometries plus all 3x4/4x3/2x6/6x2/1x12/12x1/1x11/11x1 masks x 1 geometry; "
                 "util: n,K in 1..5; inv: all 3x3 masks (>= 2 pixels) x all 50 ordered lists + a length-3 menu, other frames as quick "
                 "with all masks of 2x3/3x2; cancelling lists: every 3x3 mask x all 4 funcZ lists; units: every 3x3 mask x all 8 "
@@ -800,6 +803,32 @@ def run_util(aa, v, n, K, seed):
         T2 = tu.transformed_mapping_matrix_jit(mapping_matrix=X.copy(), grid_radians=grid.copy(), uv_wavelengths=uv.copy())
         check_matrix(v, T2, A, X, "transform_mapping_matrix:no-preload", "util transformed_mapping_matrix_jit matrix=%s" % mname,
                      "transform_mapping_matrix:nonpositive-entries:no-preload")
+    # ---- whole-number baselines handed over in other dtypes (the property quantifies over all baseline sets; an integer
+    # array of wavelengths is an ordinary input of the util functions): every function against the explicit DFT
+    uvw = np.round(uv)
+    Aw = dft_matrix(grid[:, 0], grid[:, 1], uvw)
+    vvw = (r.normal(size=K) + 1j * r.normal(size=K))
+    for form in UTIL_UV_FORMS:
+        uvf = uvw.astype(form)
+        sfx = ":baselines-dtype"
+        prw = tu.preload_real_transforms(grid_radians=grid.copy(), uv_wavelengths=uvf.copy())
+        piw = tu.preload_imag_transforms(grid_radians=grid.copy(), uv_wavelengths=uvf.copy())
+        v.ok(near(prw, np.real(Aw).T, 1.0) and near(piw, np.imag(Aw).T, 1.0), "preload-tables" + sfx,
+             lambda: "util %s baselines: cos maxdiff=%s sin maxdiff=%s" % (form, dom.maxdiff(prw, np.real(Aw).T), dom.maxdiff(piw, np.imag(Aw).T)))
+        for vals in images:
+            ref = Aw @ vals
+            gw = np.asarray(tu.visibilities_jit(image_1d=vals.copy(), grid_radians=grid.copy(), uv_wavelengths=uvf.copy()))
+            v.ok(near(gw, ref, max(1.0, n * float(np.abs(vals).max()))), "visibilities_from:no-preload" + sfx,
+                 lambda: "util visibilities_jit with %s baselines %s: got=%s want=%s" % (form, uvf.tolist(), gw[:3], ref[:3]))
+        for mname, X in mats[:3]:
+            Tw = tu.transformed_mapping_matrix_jit(mapping_matrix=X.copy(), grid_radians=grid.copy(), uv_wavelengths=uvf.copy())
+            check_matrix(v, Tw, Aw, X, "transform_mapping_matrix:no-preload" + sfx, "util transformed_mapping_matrix_jit %s baselines matrix=%s" % (form, mname),
+                         "transform_mapping_matrix:nonpositive-entries:no-preload")
+        gi = tu.image_via_jit_from(n_pixels=n, grid_radians=grid.copy(), uv_wavelengths=uvf.copy(),
+                                   visibilities=np.stack([vvw.real, vvw.imag], axis=-1))
+        refi = adjoint_real(Aw, vvw)
+        v.ok(near(gi, refi, max(1.0, K * float(np.abs(vvw).max()))), "image_from:adjoint" + sfx,
+             lambda: "util image_via_jit_from with %s baselines got=%s want=%s" % (form, np.asarray(gi)[:3], refi[:3]))
     vis_menu = [(r.normal(size=K) + 1j * r.normal(size=K))]
     for k in range(K):
         for c in VIS_COEFFS:
@@ -814,6 +843,7 @@ def run_util(aa, v, n, K, seed):
              lambda: "util image_via_jit_from got=%s want=%s" % (got[:3], ref[:3]))
 
 
+UTIL_UV_FORMS = ("int64", "int32", "float32")  # whole-number baselines (< 2**24: exact in every form)
 INV_SETS = ("G1", "R3", "M4", "G5")
 
 
